@@ -5,7 +5,7 @@ run the same evcheck binary on it, require exit 1 and a report naming the expect
 Mutants are described in /verif/mutants/Cxx.json:
   [{"id": "...", "file": "path/in/repo.go", "old": "exact text (must occur once)", "new": "replacement",
     "expect": "substring expected in a `violated:` line", "why": "what the edit breaks"}]
-A mutant may have "edits": [{"file","old","new"}, ...] instead of file/old/new.
+A mutant may have "edits": [{"file","old","new"}, ...] instead of file/old/new, or "patch": "<path under /verif of a unified diff>".
 "expect_ok": true marks a behaviour-preserving refactor on which the check must stay silent.
 """
 import json, os, shutil, subprocess, sys, argparse, tempfile, concurrent.futures, time
@@ -18,7 +18,12 @@ def run_mutant(prop, m, repo, tier):
     try:
         dst = os.path.join(d, "repo")
         shutil.copytree(repo, dst, ignore=shutil.ignore_patterns(".git", "build"), symlinks=True)
-        edits = m.get("edits") or [{"file": m["file"], "old": m["old"], "new": m["new"]}]
+        if m.get("patch"):
+            # a unified diff kept under /verif (a confirmed seed or a behaviour-preserving refactoring)
+            pp = subprocess.run(["patch", "-p1", "-s", "-d", dst, "-i", os.path.join(VERIF, m["patch"])], capture_output=True, text=True)
+            if pp.returncode != 0:
+                return (m["id"], "SKIP", "patch does not apply (tree changed?): " + (pp.stdout + pp.stderr)[-200:])
+        edits = m.get("edits") or ([] if m.get("patch") else [{"file": m["file"], "old": m["old"], "new": m["new"]}])
         for e in edits:
             p = os.path.join(dst, e["file"])
             if e.get("create"):
